@@ -294,15 +294,43 @@ class H5Group:
         grp = dest_grp[name]
         grp.attrs["name"] = name
         if not keep_id:
+            newids = dict()
+            groups = list()
+
             def change_id(_, igrp):
                 if "entity_id" in igrp.attrs:
+                    oldid = igrp.attrs["entity_id"]
+                    if isinstance(oldid, bytes):
+                        oldid = oldid.decode()
                     id_ = util.create_id()
+                    newids[oldid] = id_
                     igrp.attrs.modify("entity_id", np.bytes_(id_))
-            id_ = util.create_id()
-            grp.attrs.modify("entity_id", np.bytes_(id_))
+                if isinstance(igrp, h5py.Group):
+                    groups.append(igrp)
+
+            change_id(None, grp)
             if isinstance(grp, h5py.Group):
                 # a copied property is a dataset and has no members
                 grp.visititems(change_id)
+            # link lists address their members by id: a link that is named
+            # after the old id of the object it points to gets the new one
+            # (in creation order, which is the order of the list)
+            for igrp in groups:
+                names = list()
+                igrp.id.links.iterate(names.append,
+                                      idx_type=h5py.h5.INDEX_CRT_ORDER,
+                                      order=h5py.h5.ITER_INC)
+                for lname in names:
+                    lname = lname.decode() if isinstance(lname, bytes) \
+                        else lname
+                    newid = newids.get(lname)
+                    if newid is None:
+                        continue
+                    target = igrp[lname].attrs.get("entity_id")
+                    if isinstance(target, bytes):
+                        target = target.decode()
+                    if target == newid:
+                        igrp.move(lname, newid)
         return grp
 
     @property
